@@ -15,6 +15,21 @@ desc: Stream Padding scan of the file-info decoder (backwards, window by window)
 assume: lzma_stream_footer_decode is a recording stub (its own contract is C03.sflags.footer_decode); later stages (index decoder, header compare) are cut off by letting the stub fail
 */
 /*@obligation
+id: C09.finfo.index_init
+props: C09 C13 C04
+entry: h_finfo_index_init
+unwind: 6
+cbmc: --unwindset file_info_decode.9:2
+restrict: decode_index.function_pointer_call.1/stub_index_code
+missed_ok: yes
+fn: file_info_decode
+sentinels: 2
+expect: 20
+desc: file-info decoder, start of each Stream's Index (SEQ_INDEX_INIT): the Index decoder for this Stream is given only the memory that is LEFT under the caller's limit after the combined Index of the Streams already decoded (memlimit - lzma_index_memused(combined)), so the limit bounds the total, not each Stream separately; with no earlier Stream it gets the whole limit; the number of Index bytes to decode is the Backward Size from the Stream Footer
+assume: lzma_index_decoder_init / lzma_index_memused are recording stubs; upstream asserts memused <= memlimit (established by the previous Streams' decoders)
+*/
+
+/*@obligation
 id: C04.finfo.seek
 props: C04 C13
 entry: h_finfo_seek
@@ -34,6 +49,7 @@ struct in {
 	size_t temp_size; uint8_t temp[16];
 	uint8_t inb[8]; size_t in_start, in_pos, in_size;
 	uint64_t seek_target;
+	uint64_t memlimit, memused, backward; uint8_t has_combined;
 };
 static struct in IN VERIF_IN_INIT;
 
@@ -53,8 +69,9 @@ size_t lzma_bufcpy(const uint8_t *restrict in, size_t *restrict in_pos, size_t i
 }
 lzma_ret lzma_stream_header_decode(lzma_stream_flags *o, const uint8_t *in) { (void)o; (void)in; return LZMA_DATA_ERROR; }
 lzma_ret lzma_stream_flags_compare(const lzma_stream_flags *a, const lzma_stream_flags *b) { (void)a; (void)b; return LZMA_DATA_ERROR; }
-lzma_ret lzma_index_decoder_init(lzma_next_coder *n, const lzma_allocator *a, lzma_index **i, uint64_t m) { (void)n; (void)a; (void)i; (void)m; return LZMA_MEM_ERROR; }
-uint64_t lzma_index_memused(const lzma_index *i) { (void)i; return 0; }
+static struct { unsigned idinits; uint64_t idlimit; } GX; static uint64_t g_memused;
+lzma_ret lzma_index_decoder_init(lzma_next_coder *n, const lzma_allocator *a, lzma_index **i, uint64_t m) { (void)n; (void)a; (void)i; ++GX.idinits; GX.idlimit = m; return LZMA_MEM_ERROR; }
+uint64_t lzma_index_memused(const lzma_index *i) { (void)i; return g_memused; }
 uint64_t lzma_index_memusage(lzma_vli s, lzma_vli b) { (void)s; (void)b; return 1; }
 lzma_vli lzma_index_total_size(const lzma_index *i) { (void)i; return 0; }
 lzma_vli lzma_index_file_size(const lzma_index *i) { (void)i; return 0; }
@@ -166,4 +183,20 @@ void h_finfo_seek(void)
 		if (r == LZMA_SEEK_NEEDED) ASSERT(SEEKPOS == IN.target - C.temp_size && SEEKPOS <= IN.file_size, "seek request inside the file");
 		REACH(reverse_seek_ok);
 	}
+}
+
+static int COMBINED;
+void h_finfo_index_init(void)
+{
+	HAVOC(IN, struct in);
+	ASSUME(IN.has_combined <= 1 && IN.memlimit >= 1 && IN.memused <= IN.memlimit);
+	setup(); memset(&GX, 0, sizeof(GX));
+	C.sequence = SEQ_INDEX_INIT; C.memlimit = IN.memlimit; C.combined_index = IN.has_combined ? (lzma_index *)&COMBINED : NULL;
+	C.footer_flags.backward_size = IN.backward; g_memused = IN.memused;
+	size_t in_pos = 0;
+	const lzma_ret r = file_info_decode(&C, NULL, IN.inb, &in_pos, 0, NULL, NULL, 0, LZMA_RUN);
+	ASSERT(GX.idinits == 1 && r == LZMA_MEM_ERROR, "Index decoder initialised (the stub fails it so that the call ends here)");
+	ASSERT(GX.idlimit == (IN.has_combined ? IN.memlimit - IN.memused : IN.memlimit), "this Stream's Index may use only what the Indexes decoded so far have left under the limit");
+	REACH_IF(IN.has_combined && IN.memused > 0, fi_index_init_partial_limit);
+	REACH_IF(!IN.has_combined, fi_index_init_first);
 }
